@@ -1435,6 +1435,14 @@ func ruleC15_3(c *Ctx, r *Rep) {
 		}
 		for _, b := range f.Blocks {
 			for _, in := range b.Instrs {
+				// a constructor handed on as a value (a registration table, a generic adapter)
+				for _, op := range in.Operands(nil) {
+					if fv, isF := (*op).(*ssa.Function); isF && fnPkgPath(fv) == modPath+"/actions" && ctors[fv.Name()] {
+						if _, isCallee := in.(*ssa.Call); !isCallee || in.(*ssa.Call).Call.Value != ssa.Value(fv) {
+							registered[fv.Name()] = true
+						}
+					}
+				}
 				switch x := in.(type) {
 				case *ssa.Call:
 					if cal := x.Call.StaticCallee(); cal != nil && fnPkgPath(cal) == modPath+"/actions" && ctors[cal.Name()] {
